@@ -3,7 +3,7 @@
 // compile-time capacity (-DVC_CAP=n) and records every result as ndjson.
 //
 //   comp <script|-> <trace-out>
-// script lines:  plan new|append o d|remove n|clear|dataclear      (n: 1-based position in iteration order)
+// script lines:  plan new|append o d|remove n|sweep mask|clear|dataclear      (n: 1-based position in iteration order)
 //                ba new|set i|clear i|setall|clearall|and k        (k: mask id, see masks below)
 //                ar new|sset i v|sfill v|sclear|demplace v|dclear
 //                bs new|write W lo hi|read W                       (value = lo + 65536*hi)
@@ -123,6 +123,17 @@ int main(int argc, char** argv) {
 			if (op == "new") { if (g_pm) { if (g_pm->isActive()) g_pm->exit(); g_pm->~InstanceT(); } std::memset(g_pmStore, 0xAA, sizeof g_pmStore); g_pm = new (g_pmStore) PFSM::Instance{}; g_pm->enter(); }
 			else if (op == "append") r = g_pm->plan().change(static_cast<StateID>(a), static_cast<StateID>(b)) ? 1 : 0;
 			else if (op == "remove") { auto plan = g_pm->plan(); long n = 1; for (auto it = plan.begin(); it; ++it, ++n) if (n == a) { it.remove(); r = 1; break; } }
+			else if (op == "sweep") {		// one complete iteration; the task at the k-th visited position is removed through the iterator iff bit k-1 of a is set
+				auto plan = g_pm->plan(); long n = 0;
+				out += "\"vis\":[";
+				for (auto it = plan.begin(); it; ++it, ++n) {
+					if (n) out += ',';
+					out += '['; i(it._curr); out += ','; i(it->origin); out += ','; i(it->destination); out += ']';
+					if (n < 16 && ((a >> n) & 1)) it.remove();
+					if (n > 300) break;
+				}
+				out += "],"; r = n;
+			}
 			else if (op == "clear") g_pm->plan().clear();
 			else if (op == "dataclear") { g_pm->exit(); g_pm->enter(); }
 			kv("r", r); planOrder();
